@@ -30,10 +30,12 @@ package tls
 //@   let n = len(tps)
 //@   modifies ghostall(tpstate)
 //@   requires nonnil: forall j in 0..n: tps[j] != nil
-//@   requires fits: forall j in 0..n: 0 <= tpid(val(tps[j])) && tpid(val(tps[j])) <= 4611686018427387903 && tpvlen(val(tps[j])) <= 4611686018427387903
+//@   requires idrange: forall j in 0..n: 0 <= tpid(val(tps[j])) && tpid(val(tps[j])) <= 18446744073709551615
+//@   note idrange: ID() returns a uint64
+//@   panics when exists j in 0..n: tpid(val(tps[j])) > 4611686018427387903 || tpvlen(val(tps[j])) > 4611686018427387903
+//@   note panics when: an id or a length that does not fit a 62-bit varint is REFUSED by panic (quicvarint.Append), never truncated (C24)
 //@   requires walk: tppos(0) == 0 && forall j in 0..n: tppos(j+1) == tppos(j) + tphdr(tps[j]) + tpvlen(val(tps[j]))
 //@   note walk: tppos is an arbitrary function satisfying the recurrence of the entry offsets, so the clauses below hold for THE offsets of the concatenation (pattern documented in /verif/CONTRACTS.md)
-//@   note fits: ids or lengths above 2^62-1 make quicvarint.Append panic (refused, not truncated): outside this contract
 //@   ensures fresh: isnil(ret) || fresh(ret)
 //@   ensures total: len(ret) == tppos(n)
 //@   ensures idtag: forall j in 0..n: ret[tppos(j)] / 64 == tagbits(vlen(tpid(val(tps[j]))))
@@ -43,6 +45,7 @@ package tls
 //@   ensures value: forall j in 0..n: forall k in 0..tpvlen(val(tps[j])): ret[tppos(j) + tphdr(tps[j]) + k] == tpvbyte(val(tps[j]), k)
 //@   loop 0 invariant -1 <= $rangeindex && $rangeindex < n
 //@   loop 0 invariant len(b) == tppos($k) && (isnil(b) || fresh(b))
+//@   loop 0 invariant passed: forall j in 0..$k: tpid(val(tps[j])) <= 4611686018427387903 && tpvlen(val(tps[j])) <= 4611686018427387903
 //@   loop 0 invariant forall j in 0..$k: b[tppos(j)] / 64 == tagbits(vlen(tpid(val(tps[j]))))
 //@   loop 0 invariant forall j in 0..$k: vlen(tpid(val(tps[j]))) == 1 ==> b[tppos(j)] == tpid(val(tps[j]))
 //@   loop 0 invariant forall j in 0..$k: b[tppos(j) + vlen(tpid(val(tps[j])))] / 64 == tagbits(vlen(tpvlen(val(tps[j]))))
